@@ -97,8 +97,11 @@ int uv_fs_poll_start(uv_fs_poll_t* handle,
   uv__handle_unref(&ctx->timer_handle);
 
   err = uv_fs_stat(loop, &ctx->fs_req, ctx->path, poll_cb);
-  if (err < 0)
+  if (err < 0) {
+    /* The timer was never started, it only needs unlinking from the loop. */
+    uv__queue_remove(&ctx->timer_handle.handle_queue);
     goto error;
+  }
 
   if (handle->poll_ctx != NULL)
     ctx->previous = handle->poll_ctx;
